@@ -24,10 +24,18 @@ import (
 )
 
 type C18Step struct {
-	Op   string `json:"op"` // add | rem | del | rel | hold
+	// add | rem: source.Add1/Remove1; chk: source.CanAdd1/CanRemove1 (K);
+	// veto: source.Add1/Remove1 (K) vetoed by a later-bound handler (Any:
+	// AnyEnter, else the state's own Enter/Exit); bar: source.Add1(Bar) with
+	// Bar = {Remove: state 0}, BarEnter vetoing when Veto, then Remove1(Bar);
+	// del | rel | hold: schedule
+	Op   string `json:"op"`
 	St   int    `json:"st,omitempty"`
 	Args bool   `json:"args,omitempty"`
 	I    int    `json:"i,omitempty"`
+	K    string `json:"k,omitempty"` // add | rem (chk, veto)
+	Any  bool   `json:"any,omitempty"`
+	Veto bool   `json:"veto,omitempty"`
 }
 
 type C18AnyOp struct {
@@ -58,6 +66,8 @@ type C18Obs struct {
 	Quiet   bool        `json:"quiet"`
 	SyncTgt []uint64    `json:"sync_tgt,omitempty"`
 	SyncRet int         `json:"sync_ret,omitempty"`
+	EvLog   []uint64    `json:"ev_log,omitempty"`  // per source call: pipe handler invocations
+	ChgLog  []bool      `json:"chg_log,omitempty"` // per source call: a piped source tick moved
 	AnySrc  []bool      `json:"any_src,omitempty"`
 	AnyTgt  []bool      `json:"any_tgt,omitempty"`
 	AnyRes  []uint64    `json:"any_res,omitempty"`
@@ -216,6 +226,20 @@ func (t *c18Tracer) TransitionStart(tx *am.Transition) {
 	<-h.tgtRelease
 }
 
+// c18SrcTracer counts the invocations of the pipes' own handlers on the
+// source (whatever their names): every one of them forks one goroutine for a
+// non-flat pipe.
+type c18SrcTracer struct {
+	*am.TracerNoOp
+	starts atomic.Int64
+}
+
+func (t *c18SrcTracer) HandlerStart(tx *am.Transition, emitter string, handler string) {
+	if strings.HasPrefix(emitter, "Bind") || emitter == "c18-flat" {
+		t.starts.Add(1)
+	}
+}
+
 // ---------------------------------------------------------------- exec
 
 func c18Names(in *C18Input) (src, tgt am.S) {
@@ -258,11 +282,14 @@ func c18Exec(in *C18Input) *C18Obs {
 		}
 	}
 	tschema["H"] = am.State{Multi: true}
+	sschema["Bar"] = am.State{Remove: am.S{snames[0]}}
 	h := &c18H{flat: in.Variant == "flat", tnames: tnames, parks: in.Parks,
 		ev: make(chan c18Ev, 1024), tgtRelease: make(chan struct{})}
 	ctx, cancel := context.WithCancel(context.Background())
 	defer cancel()
-	source := am.New(ctx, sschema, &am.Opts{Id: "c18-src", HandlerTimeout: 20 * time.Second})
+	str := &c18SrcTracer{TracerNoOp: &am.TracerNoOp{Id: "c18s"}}
+	source := am.New(ctx, sschema, &am.Opts{Id: "c18-src", HandlerTimeout: 20 * time.Second,
+		Tracers: []am.Tracer{str}})
 	tr := &c18Tracer{TracerNoOp: &am.TracerNoOp{Id: "c18"}, h: h}
 	target := am.New(ctx, tschema, &am.Opts{Id: "c18-tgt", HandlerTimeout: 20 * time.Second,
 		Tracers: []am.Tracer{tr}})
@@ -294,7 +321,7 @@ func c18Exec(in *C18Input) *C18Obs {
 			fin[snames[i]+am.SuffixState] = pipes.AddFlat(source, api, snames[i], tnames[i])
 			fin[snames[i]+am.SuffixEnd] = pipes.RemoveFlat(source, api, snames[i], tnames[i])
 		}
-		_, err = source.HandlersBindMaps(nil, fin)
+		_, err = source.HandlersBindMaps(nil, fin, am.BindOpts{Id: "c18-flat"})
 	default:
 		err = fmt.Errorf("unknown variant %s", in.Variant)
 	}
@@ -302,18 +329,29 @@ func c18Exec(in *C18Input) *C18Obs {
 		obs.Err = "bind: " + err.Error()
 		return obs
 	}
-	// counts the pipe handler invocations (= goroutines forked by non-flat pipes)
-	var fired atomic.Int64
-	cnt := map[string]am.HandlerFinal{}
-	for i := 0; i < n; i++ {
-		cnt[snames[i]+am.SuffixState] = func(e *am.Event) { fired.Add(1) }
-		if in.Variant != "err" {
-			cnt[snames[i]+am.SuffixEnd] = func(e *am.Event) { fired.Add(1) }
-		}
+	// handlers bound AFTER the pipe: scripted vetoes
+	var vetoState atomic.Int64 // 1 + index of the state whose Enter/Exit says no
+	var vetoAny, vetoBar atomic.Bool
+	neg := map[string]am.HandlerNegotiation{
+		"AnyEnter": func(e *am.Event) bool { return !vetoAny.Load() },
+		"BarEnter": func(e *am.Event) bool { return !vetoBar.Load() },
 	}
-	if _, err = source.HandlersBindMaps(nil, cnt); err != nil {
+	for i := 0; i < n; i++ {
+		i := i
+		f := func(e *am.Event) bool { return vetoState.Load() != int64(i+1) }
+		neg[snames[i]+am.SuffixEnter] = f
+		neg[snames[i]+am.SuffixExit] = f
+	}
+	if _, err = source.HandlersBindMaps(neg, nil); err != nil {
 		obs.Err = "bind: " + err.Error()
 		return obs
+	}
+	pipedTicks := func() []uint64 {
+		ret := make([]uint64, n)
+		for i := 0; i < n; i++ {
+			ret[i] = source.Tick(snames[i])
+		}
+		return ret
 	}
 
 	running := 0
@@ -321,11 +359,12 @@ func c18Exec(in *C18Input) *C18Obs {
 	tgtParked := false
 	srcInFlight := false
 	srcSlot := -1
+	srcScripted := false
 	expected := func() int {
 		if h.flat {
 			return 0
 		}
-		return int(fired.Load())
+		return int(str.starts.Load())
 	}
 	settle := func() bool {
 		for running > 0 || parkedSeen < expected() {
@@ -346,6 +385,9 @@ func c18Exec(in *C18Input) *C18Obs {
 					if cl == 0 && obs.SrcLog[srcSlot] == 3 {
 						cl = 3
 					}
+					if cl == 1 && srcScripted {
+						cl = 4 // canceled by the step's own veto
+					}
 					obs.SrcLog[srcSlot] = cl
 				}
 			case <-time.After(5 * time.Second):
@@ -357,9 +399,11 @@ func c18Exec(in *C18Input) *C18Obs {
 	}
 	doStep := func(st C18Step) bool {
 		switch st.Op {
-		case "add", "rem":
+		case "add", "rem", "chk", "veto", "bar":
 			if srcInFlight {
 				obs.SrcLog = append(obs.SrcLog, 9)
+				obs.EvLog = append(obs.EvLog, 0)
+				obs.ChgLog = append(obs.ChgLog, false)
 				return true
 			}
 			if st.St < 0 || st.St >= n {
@@ -370,19 +414,63 @@ func c18Exec(in *C18Input) *C18Obs {
 			if st.Args {
 				args = am.A{"x": 1}
 			}
+			name := snames[st.St]
+			add := st.Op == "add" || st.K == "add"
+			var call func() am.Result
+			srcScripted = false
+			switch st.Op {
+			case "add", "rem":
+				call = func() am.Result {
+					if add {
+						return source.Add1(name, args)
+					}
+					return source.Remove1(name, args)
+				}
+			case "chk":
+				call = func() am.Result {
+					if add {
+						return source.CanAdd1(name, nil)
+					}
+					return source.CanRemove1(name, nil)
+				}
+			case "veto":
+				srcScripted = true
+				sti := int64(st.St + 1)
+				anyv := st.Any
+				call = func() am.Result {
+					if anyv {
+						vetoAny.Store(true)
+					} else {
+						vetoState.Store(sti)
+					}
+					defer vetoAny.Store(false)
+					defer vetoState.Store(0)
+					if add {
+						return source.Add1(name, args)
+					}
+					return source.Remove1(name, args)
+				}
+			case "bar":
+				srcScripted = st.Veto
+				veto := st.Veto
+				call = func() am.Result {
+					vetoBar.Store(veto)
+					defer vetoBar.Store(false)
+					res := source.Add1("Bar", nil)
+					if res == am.Executed {
+						source.Remove1("Bar", nil)
+					}
+					return res
+				}
+			}
 			srcSlot = len(obs.SrcLog)
 			obs.SrcLog = append(obs.SrcLog, 0)
+			before := pipedTicks()
+			ev0 := str.starts.Load()
 			srcInFlight = true
 			running++
-			name := snames[st.St]
-			add := st.Op == "add"
 			go func() {
-				var res am.Result
-				if add {
-					res = source.Add1(name, args)
-				} else {
-					res = source.Remove1(name, args)
-				}
+				res := call()
 				h.ev <- c18Ev{typ: c18EvSrcDone, res: res}
 			}()
 			if !settle() {
@@ -391,6 +479,13 @@ func c18Exec(in *C18Input) *C18Obs {
 			if srcInFlight {
 				obs.SrcLog[srcSlot] = 3 // the source call is stuck inside the target
 			}
+			after := pipedTicks()
+			chg := false
+			for i := range after {
+				chg = chg || after[i] != before[i]
+			}
+			obs.EvLog = append(obs.EvLog, uint64(str.starts.Load()-ev0))
+			obs.ChgLog = append(obs.ChgLog, chg)
 		case "del":
 			h.mu.Lock()
 			if st.I < 0 || st.I >= len(h.parked) {
@@ -563,6 +658,13 @@ func c18CoqSteps(steps []C18Step) string {
 			parts[i] = fmt.Sprintf("SSrc MAdd %d %s", s.St, coqBool(s.Args))
 		case "rem":
 			parts[i] = fmt.Sprintf("SSrc MRem %d %s", s.St, coqBool(s.Args))
+		case "chk":
+			parts[i] = fmt.Sprintf("SChk %s %d", map[bool]string{true: "MAdd", false: "MRem"}[s.K == "add"], s.St)
+		case "veto":
+			parts[i] = fmt.Sprintf("SVeto %s %s %d %s", coqBool(s.Any),
+				map[bool]string{true: "MAdd", false: "MRem"}[s.K == "add"], s.St, coqBool(s.Args))
+		case "bar":
+			parts[i] = fmt.Sprintf("SBar %s", coqBool(s.Veto))
 		case "del":
 			parts[i] = fmt.Sprintf("SDel %d", s.I)
 		case "rel":
@@ -592,11 +694,12 @@ func c18Coq(in *C18Input, obs *C18Obs) string {
 	steps := append(append([]C18Step{}, in.Steps...), obs.Tail...)
 	return fmt.Sprintf("KPipe {| k_cfg := {| p_flat := %s; p_addonly := %s; p_n := %d; p_multiS := %s; p_multiT := %s; p_parks := %s |}; "+
 		"k_steps := %s; k_sync := %s; o_ok := %s; o_srclog := %s; o_dellog := [%s]%%N; o_src := %s; o_tgt := %s; "+
-		"o_ntx := %d; o_nparks := %d; o_quiet := %s; o_sync := %s |}",
+		"o_ntx := %d; o_nparks := %d; o_quiet := %s; o_sync := %s; o_evlog := %s; o_chglog := %s |}",
 		coqBool(in.Variant == "flat"), coqBool(in.Variant == "err"), in.N, coqBoolList(in.MultiS),
 		coqBoolList(in.MultiT), coqBoolList(in.Parks), c18CoqSteps(steps), coqBool(in.Sync),
 		coqBool(obs.Err == ""), coqNList(obs.SrcLog), strings.Join(dl, ";"), coqNList(obs.Src),
-		coqNList(obs.Tgt), obs.NTx, obs.NParks, coqBool(obs.Quiet), coqNList(obs.SyncTgt))
+		coqNList(obs.Tgt), obs.NTx, obs.NParks, coqBool(obs.Quiet), coqNList(obs.SyncTgt),
+		coqNList(obs.EvLog), coqBoolList(obs.ChgLog))
 }
 
 // ---------------------------------------------------------------- generators
@@ -629,6 +732,7 @@ func c18GenPipe(r *Rng, variant string, mode int) *C18Input {
 	busy := mode >= 2
 	reorder := mode == 1 || mode == 3
 	eager := mode == 4
+	vetoes := r.Chance(60)
 	burst := r.Range(1, 20)
 	if busy {
 		np := r.Range(1, 12)
@@ -656,6 +760,33 @@ func c18GenPipe(r *Rng, variant string, mode int) *C18Input {
 			}
 			in.Steps = append(in.Steps, C18Step{Op: "del", I: i})
 			inflight--
+		case vetoes && x >= 80:
+			// source-side calls that must NOT produce a pipe event
+			st := r.Intn(in.N)
+			k := "add"
+			if srcAct[st] != r.Chance(20) {
+				k = "rem"
+			}
+			kind := r.Intn(4)
+			if variant == "err" && kind == 3 {
+				kind = 0 // a relation does not remove Exception
+			}
+			switch kind {
+			case 0:
+				in.Steps = append(in.Steps, C18Step{Op: "chk", K: k, St: st})
+			case 1, 2:
+				in.Steps = append(in.Steps, C18Step{Op: "veto", K: k, St: st, Any: r.Chance(40), Args: r.Chance(15)})
+			default:
+				veto := r.Chance(60)
+				in.Steps = append(in.Steps, C18Step{Op: "bar", Veto: veto})
+				if !veto {
+					if srcAct[0] && variant != "err" {
+						inflight++
+					}
+					srcAct[0] = false
+				}
+			}
+			issued++
 		default:
 			st := r.Intn(in.N)
 			op := "add"
@@ -726,11 +857,14 @@ func runC18(c *Ctx) error {
 			out.Add(kind, in, obs, c18Coq(in, obs), len(in.AnyOps) == 0, "")
 			return
 		}
-		nsrc, ndel, nrel, nhold, reord := 0, 0, 0, 0, false
+		nsrc, ndel, nrel, nhold, nside, reord := 0, 0, 0, 0, 0, false
 		for _, s := range in.Steps {
 			switch s.Op {
 			case "add", "rem":
 				nsrc++
+			case "chk", "veto", "bar":
+				nsrc++
+				nside++
 			case "del":
 				ndel++
 				if s.I > 0 {
@@ -744,6 +878,7 @@ func runC18(c *Ctx) error {
 		}
 		out.Count("burst", fmt.Sprint(nsrc))
 		out.Count("states", fmt.Sprint(in.N))
+		out.Count("checks_vetoes_relation_removals", map[bool]string{true: "some", false: "none"}[nside > 0])
 		out.Count("delivery", map[bool]string{true: "reordered", false: "oldest-first"}[reord])
 		out.Count("target", map[bool]string{true: "held at least once", false: "never held"}[obs.NParks > 0])
 		ms, mt := false, false
